@@ -61,21 +61,29 @@ func verifyCaveats(caveats []string, userID string) error {
 	// U: unknownCaveat
 	// v: caveat to be verified
 	var verified uint8
-	now := time.Now().Second()
+	now := time.Now().Unix()
+	notSatisfied := errors.New("Caveat not satisfied")
 
 LoopCaveat:
 	for _, caveat := range caveats {
 		switch {
+		// Every caveat must hold, and each required caveat must appear exactly once:
+		// a caveat that is not satisfied (or is repeated) refuses the token.
 		case caveat == Gen:
+			if verified&1 != 0 {
+				return notSatisfied
+			}
 			verified |= 1
 		case strings.HasPrefix(caveat, UserPrefix):
-			if caveat[len(UserPrefix):] == userID {
-				verified |= 2
+			if verified&2 != 0 || caveat[len(UserPrefix):] != userID {
+				return notSatisfied
 			}
+			verified |= 2
 		case strings.HasPrefix(caveat, TimePrefix):
-			if verifyExpiry(caveat[len(TimePrefix):], now) {
-				verified |= 4
+			if verified&4 != 0 || !verifyExpiry(caveat[len(TimePrefix):], now) {
+				return notSatisfied
 			}
+			verified |= 4
 		default:
 			verified |= 8
 			break LoopCaveat
@@ -92,8 +100,8 @@ LoopCaveat:
 	return errors.New("Required caveats not present")
 }
 
-func verifyExpiry(t string, now int) bool {
-	expiry, err := strconv.Atoi(t)
+func verifyExpiry(t string, now int64) bool {
+	expiry, err := strconv.ParseInt(t, 10, 64)
 
 	if err != nil {
 		return false
